@@ -519,9 +519,10 @@ def impl_sx(steps: List[dict]) -> str:
 def classes_of(hist: List[list]) -> List[str]:
     """Decidable input classes outside the proved fragment F:
        K_clear      the graph is re-created;
-       K_live_drop  an instance is dropped while an evaluation is live (begun by a Next, not yet exhausted / closed) and
-                    that evaluation is asked for another row afterwards: an instance that dies before its turn is passed
-                    on as None."""
+       K_live_drop  an instance may die while an evaluation is live (begun by a Next, not yet closed) -- the program drops
+                    one, or another evaluation that was holding it ends (Close, or a Next that may exhaust it) -- and the
+                    live evaluation is asked for another row afterwards: an instance that dies before its turn is handed
+                    out as None."""
     ks = []
     kinds = [o[0] for o in hist]
     if "Clear" in kinds:
@@ -533,10 +534,12 @@ def classes_of(hist: List[list]) -> List[str]:
         if o[0] == "Next":
             if o[1] in tainted:
                 live_drop = True
+            tainted |= (begun - {o[1]})     # may exhaust evaluation o[1] and release what it held
             begun.add(o[1])
         elif o[0] == "Close":
             begun.discard(o[1])
             tainted.discard(o[1])
+            tainted |= begun
         elif o[0] == "Drop":
             tainted |= begun
     if live_drop:
